@@ -22,6 +22,7 @@ int ds_self(void);
 int ds_scen_index(void);			/* scenario thread number (spawn order, main = 0); -1 for library-created threads */
 void ds_op_begin(int i);			/* current thread starts program operation i */
 void ds_yield(void);				/* spin hint from scenario code */
+void ds_unit(void);				/* unit boundary (see `harass` in rt.c) */
 void ds_progress(void);				/* observable progress without a memory write */
 void ds_bulk(int on);				/* run a long non-blocking stretch as one scheduling step */
 
@@ -68,7 +69,7 @@ extern int ds_membarrier_available;
 enum {
 	DSF_FUTEX_SLEEP = 48, DSF_FUTEX_WAKE_HIT = 49, DSF_DELAYED_STORE = 50, DSF_FORWARD = 51,
 	DSF_MEMBARRIER = 52, DSF_FAULT_HIT = 53, DSF_SIGNAL_RUN = 54, DSF_CAS_FAIL = 55,
-	DSF_MUTEX_BLOCK = 56, DSF_STALE_READ = 57, DSF_FORKED = 58, DSF_FROZEN = 59, DSF_GATE_PASSED = 60, DSF_SOLO_OP_DONE = 61, DSF_TIMESLICE = 62, DSF_SB_WINDOW = 63, DSF_STALLED = 47, DSF_INPLACE_GROWTH = 46, DSF_ADDRLINE = 45,
+	DSF_MUTEX_BLOCK = 56, DSF_STALE_READ = 57, DSF_FORKED = 58, DSF_FROZEN = 59, DSF_GATE_PASSED = 60, DSF_SOLO_OP_DONE = 61, DSF_TIMESLICE = 62, DSF_SB_WINDOW = 63, DSF_STALLED = 47, DSF_INPLACE_GROWTH = 46, DSF_ADDRLINE = 45, DSF_HARASS = 44,
 };
 
 typedef void (*ds_scenario_fn)(void);
